@@ -203,6 +203,12 @@ def run_case(cls, kwargs, case, q):
         return [], 0, f"{tag}{type(e).__name__}: {e}"
     fails = []
     exp = expected_of(case)
+    if op in ("eval", "batch_eval") and case["sort"] != "fp":
+        # C11: results are pairwise distinct (floats excluded: NaN != NaN, and -0.0 == 0.0)
+        dup = [x for i, x in enumerate(vals) if x in vals[:i]]
+        if dup:
+            fails.append((f"{op}/duplicate-result", dup[0], f"{cls}: constraints {[str(c) for c in cons]}; {op}(n={q.get('n')}) returned {vals!r}: "
+                          "the same value twice"))
     for val in vals:
         eq = value_eq(case, zv, val)
         ok = None
@@ -241,7 +247,7 @@ def all_cases():
                 cases.append({"sort": "fp", "fs": fs, "form": "eq", "bits": bits, "name": name})
         for form in ("nan", "gtmax", "ltmin", "possub"):
             cases.append({"sort": "fp", "fs": fs, "form": form})
-    for val in ["", "a", "\x00z", "a\\b", 'q"q', "café", "\U0001F600", "x\U0001F600y", "\\u{48}", "\\x41", "tab\there", "\x7f", "ÿĀ"]:
+    for val in ["", "a", "\x00z", "a\\b", 'q"q', "café", "\U0001F600", "x\U0001F600y", "\\u{48}", "\\u0048", "\\x41", "tab\there", "\x7f", "ÿĀ"]:
         for form in ("eq", "concat", "prefix_len"):
             cases.append({"sort": "str", "form": form, "val": val})
     return cases
